@@ -507,6 +507,15 @@ fn tab_and_selection(s: &Screen) -> (&'static str, Option<String>) {
     ("other", None)
 }
 
+fn parse_addr(s: &str) -> ICAO {
+    let b = wire::unhex(s);
+    if b.len() == 3 {
+        ICAO([b[0], b[1], b[2]])
+    } else {
+        ICAO([0, 0, 0])
+    }
+}
+
 fn map_text(s: &Screen) -> Option<String> {
     let r = block_rect(s, "Map")?;
     let mut t = String::new();
@@ -622,7 +631,7 @@ pub fn execute(sc: &K18) -> Outcome {
                 let (tab_now, sel_now) = last_frame_k.and_then(|k| shown.get(&k).cloned()).unwrap_or(("other", None));
                 if json.contains("\"code\":\"Enter\"") {
                     centred = match (tab_now, sel_now) {
-                        ("airplanes", Some(icao)) if tr.aircraft_details(icao.parse().unwrap_or(ICAO([0, 0, 0]))).is_some() => Some((icao, 0)),
+                        ("airplanes", Some(icao)) if tr.aircraft_details(parse_addr(&icao)).is_some() => Some((icao, 0)),
                         ("airplanes", _) => centred,
                         _ => None, // Enter on Map / Coverage resets the view
                     };
